@@ -3,5 +3,6 @@ CONSTANTS
   MaxLen = 13
   BackslashSep = FALSE
   RandMax = 40
+  PadMax = 9
 INIT GenInit
 NEXT GenNext
